@@ -12,7 +12,8 @@ CLAIMED = True
 CONFIG = {'assumptions': [
     'rows compare the 12 state-machine registers; is_stmt by truth value',
     'a v5 header without directories/file names leaves include_directory/file_entry None: compared as empty',
-    'unknown STANDARD opcodes (13 <= op < opcode_base), DW_FORM_strx* in v5 tables, vendor content types '
+    'unknown STANDARD opcodes (13 <= op < opcode_base), DW_FORM_strx* in v5 tables, strp_sup/GNU_strp_alt when no '
+    'supplementary DWARFInfo was given (the library then yields the offset as text), vendor content types '
     'without a name in ENUM_DW_LNCT, DW_LNE_define_file in a version 5 program and extended instructions '
     'whose declared length differs from their operands are outside the property (DESIGN 5)',
     'line_program_for_CU: the unit and its line program use the same DWARF format and address size; the DWARF '
@@ -28,7 +29,8 @@ LEVEL = {'text': 'Machine-checked (Props/C05.v, 20 theorems, closed under the gl
                  'at distance 0 from the declared end and leaves the stream at the next byte; C05_decode_total - on arbitrary '
                  'bytes the loop model never ends by fuel exhaustion; '
                  'C05_header_parse / C05_resolve_strings / C05_header_roundtrip - the model of Dwarf_lineprog_header '
-                 '(v2-v5, DWARF32/64, v5 entry formats over string, line_strp, strp, udata, data1/2/4/8/16, block) '
+                 '(v2-v5, DWARF32/64, v5 entry formats over string, line_strp, strp, strp_sup, GNU_strp_alt, udata, '
+                 'data1/2/4/8/16, block) '
                  'and of _parse_line_program_at_offset returns the encoded tables, the resolved strings, the legacy '
                  'include_directory/file_entry arrays and the extent [first program byte, end of unit) for a unit '
                  'placed anywhere in .debug_line; C05_unit_rows - the composition (header + get_entries); '
@@ -54,7 +56,8 @@ RULE = ('cases: prog = header parameters (opcode_base 1..255 incl. <13, line_ran
         '(all 12 standard, the 4 extended, unknown extended, every special opcode; padded LEB128; multiple sequences; '
         'DW_LNE_define_file entries that repeat a header entry or an earlier definition, or share only the name) '
         'decoded by a LineProgram built directly over a BytesIO with garbage before/after; unit = 1..4 complete units '
-        '(versions 2-5, DWARF32/64, legacy tables or v5 entry formats over string/line_strp/strp/udata/data1-16/block) '
+        '(versions 2-5, DWARF32/64, legacy tables or v5 entry formats over string/line_strp/strp/udata/data1-16/block '
+        'and strp_sup/GNU_strp_alt resolved from the .debug_str of a supplementary DWARFInfo) '
         'laid out in one .debug_line with gaps, parsed by DWARFInfo._parse_line_program_at_offset; cu = the same '
         'through line_program_for_CU of synthesized units (each lookup followed by get_entries), repeated lookups of '
         'one table through the cache from units of the same and of different DWARF versions, in any order; raw = random bytes '
@@ -66,9 +69,11 @@ RULE = ('cases: prog = header parameters (opcode_base 1..255 incl. <13, line_ran
         'least one row or a table entry')
 
 LNCT = [1, 2, 3, 4, 5, 0x2000, 0x2001, 0x2002, 0x3fff]
-FORMS = ['string', 'line_strp', 'strp', 'udata', 'data1', 'data2', 'data4', 'data8', 'data16', 'block']
+FORMS = ['string', 'line_strp', 'strp', 'udata', 'data1', 'data2', 'data4', 'data8', 'data16', 'block',
+         'strp_sup', 'GNU_strp_alt']
+STRING_FORMS = ['string', 'line_strp', 'strp', 'strp_sup', 'GNU_strp_alt']
 FORM_CODE = {'string': 0x08, 'line_strp': 0x1f, 'strp': 0x0e, 'udata': 0x0f, 'data1': 0x0b, 'data2': 0x05,
-             'data4': 0x06, 'data8': 0x07, 'data16': 0x1e, 'block': 0x09}
+             'data4': 0x06, 'data8': 0x07, 'data16': 0x1e, 'block': 0x09, 'strp_sup': 0x1d, 'GNU_strp_alt': 0x1f21}
 STD = ['copy', 'advance_pc', 'advance_line', 'set_file', 'set_column', 'negate_stmt', 'set_basic_block',
        'const_add_pc', 'fixed_advance_pc', 'set_prologue_end', 'set_epilogue_begin', 'set_isa']
 UVALS = [0, 1, 2, 3, 63, 64, 127, 128, 129, 255, 256, 16383, 16384, 65535, 65536, 2**32 - 1, 2**32, 2**63, 2**64 - 1, 2**64]
@@ -192,7 +197,12 @@ def _strpool(rng):
     return b''.join(parts), refs
 
 
-def gen_fval(rng, form, is64, lsrefs, srefs):
+def gen_fval(rng, form, is64, lsrefs, srefs, suprefs=None):
+    if form in ('strp_sup', 'GNU_strp_alt'):
+        # a string of the supplementary object file's .debug_str; without such a file the library falls back to the
+        # offset as text, which is not the string the producer meant: out of the domain
+        off, s = rng.choice(suprefs) if suprefs else (rng.randint(0, 300), b'')
+        return [form, off, s]
     if form == 'string':
         return ['string', _name(rng, 0, 20)]
     if form == 'line_strp':
@@ -214,10 +224,10 @@ def gen_format(rng, need_path, maxn=5):
     cts = rng.sample(LNCT, min(n, len(LNCT)))
     if need_path and 1 not in cts:
         cts.insert(rng.randint(0, len(cts)), 1)
-    return [[ct, rng.choice(FORMS[:3]) if (ct == 1 and rng.random() < 0.9) else rng.choice(FORMS)] for ct in cts]
+    return [[ct, rng.choice(STRING_FORMS) if (ct == 1 and rng.random() < 0.9) else rng.choice(FORMS)] for ct in cts]
 
 
-def gen_header(rng, version, is64, addr, lsrefs, srefs, params=None):
+def gen_header(rng, version, is64, addr, lsrefs, srefs, params=None, suprefs=None):
     params = params or gen_params(rng, version)
     ob = params[5]
     std = bytes(rng.getrandbits(8) for _ in range(ob - 1)) if rng.random() < 0.5 else \
@@ -229,10 +239,10 @@ def gen_header(rng, version, is64, addr, lsrefs, srefs, params=None):
     else:
         nd = rng.choice([0, 1, 2, 3])
         dfmt = gen_format(rng, nd > 0)
-        dirs = [[gen_fval(rng, f, is64, lsrefs, srefs) for _, f in dfmt] for _ in range(nd)]
+        dirs = [[gen_fval(rng, f, is64, lsrefs, srefs, suprefs) for _, f in dfmt] for _ in range(nd)]
         nf = rng.choice([0, 1, 2, 4])
         ffmt = gen_format(rng, rng.random() < 0.8)
-        fnames = [[gen_fval(rng, f, is64, lsrefs, srefs) for _, f in ffmt] for _ in range(nf)]
+        fnames = [[gen_fval(rng, f, is64, lsrefs, srefs, suprefs) for _, f in ffmt] for _ in range(nf)]
     seg = rng.choice([0, 0, 0, rng.getrandbits(8)])
     return [is64, version, addr, seg, params, std, incdirs, files, dfmt, dirs, ffmt, fnames]
 
@@ -320,12 +330,14 @@ def gen(ctx):
             k = rng.choice([0, 0, 0, 1, 2])
             line_str, lsrefs = _strpool(rng)
             strsec, srefs = _strpool(rng)
+            # the .debug_str of a supplementary object file handed to the DWARFInfo (absent in one case of eight)
+            supsec, suprefs = _strpool(rng) if rng.random() < 0.875 else (None, None)
             units = []
             for _u in range(rng.choice([1, 1, 2, 3, 4])):
                 version = rng.choice([2, 3, 4, 5, 5])
                 is64 = rng.random() < 0.3
                 addr = rng.choice([4, 8])
-                hdr = gen_header(rng, version, is64, addr, lsrefs, srefs)
+                hdr = gen_header(rng, version, is64, addr, lsrefs, srefs, suprefs=suprefs)
                 prog = gen_prog(rng, hdr[4], addr, rng.choice([0, 1, 5, 20, rng.randint(0, 60)]),
                                 allow_define_file=version < 5 and kind == 'unit', hfiles=hdr[7])
                 units.append([hdr, prog, _garbage(rng, rng.choice([0, 0, 1, 13]))])
@@ -339,7 +351,8 @@ def gen(ctx):
                 cuvers = [rng.choice([2, 3, 4, 5]) if x < 0 or rng.random() < 0.6 else units[x][0][1] for x in lookups]
             else:
                 cuvers = None
-            cases.append((kind, [le, k, line_str, strsec, units, _garbage(rng, rng.choice([0, 4])), lookups, cuvers]))
+            cases.append((kind, [le, k, line_str, strsec, units, _garbage(rng, rng.choice([0, 4])), lookups, cuvers,
+                                 supsec]))
     return cases
 
 
@@ -443,9 +456,10 @@ def _sec(data, name):
     return DebugSectionDescriptor(io.BytesIO(data), name, None, len(data), 0)
 
 
-def _dwarfinfo(le, line, line_str, strsec, info=None, abbrev=None):
+def _dwarfinfo(le, line, line_str, strsec, info=None, abbrev=None, sup=None):
+    """sup: the .debug_str bytes of a supplementary object file (DWARFInfo.supplementary_dwarfinfo), or None"""
     from elftools.dwarf.dwarfinfo import DWARFInfo, DwarfConfig
-    return DWARFInfo(
+    di = DWARFInfo(
         config=DwarfConfig(little_endian=le, default_address_size=8, machine_arch='x64'),
         debug_info_sec=_sec(info, '.debug_info') if info is not None else None,
         debug_aranges_sec=None,
@@ -458,6 +472,9 @@ def _dwarfinfo(le, line, line_str, strsec, info=None, abbrev=None):
         debug_line_str_sec=_sec(line_str, '.debug_line_str') if line_str is not None else None,
         debug_loclists_sec=None, debug_rnglists_sec=None, debug_sup_sec=None, gnu_debugaltlink_sec=None,
         debug_types_sec=None)
+    if sup is not None:
+        di.supplementary_dwarfinfo = _dwarfinfo(le, b'', None, sup)
+    return di
 
 
 def _uleb(v):
@@ -527,7 +544,8 @@ def evaluate(ctx, cases):
             le, k, line_str, strsec = a[0], a[1], a[2], a[3]
             for ui, (hdr, prog, gap) in enumerate(a[4]):
                 pb = pbytes[(ci, ui)]
-                req2 += [['encode_unit', le, k, hdr, pb], ['wf_header', hdr, line_str, strsec],
+                sup = a[8] if len(a) > 8 and a[8] is not None else b''
+                req2 += [['encode_unit', le, k, hdr, pb], ['wf_header', hdr, line_str, strsec, sup],
                          ['wf_prog', [le, hdr[2]], hdr[4], prog], ['rows_spec', hdr[4], prog],
                          ['expected_view', le, k, hdr, pb, 0]]
                 tags += [(ci, ui, 'bytes'), (ci, ui, 'wfh'), (ci, ui, 'wf'), (ci, ui, 'rows'), (ci, ui, 'view')]
@@ -565,7 +583,7 @@ def evaluate(ctx, cases):
                 line += info[(ci, ui, 'bytes')]
             line += trail
             built[ci] = (line, offs)
-            secs = [line, line_str, strsec]
+            secs = [line, line_str, strsec, a[8] if len(a) > 8 and a[8] is not None else 'nosup']
             if kind == 'unit':
                 us = [[[le, units[ui][0][0], units[ui][0][2]], offs[ui]] for ui in range(len(units))]
             else:
@@ -640,6 +658,7 @@ def evaluate(ctx, cases):
         else:
             le, k, line_str, strsec, units, trail, lookups = a[:7]
             cuvers = a[7] if len(a) > 7 and a[7] is not None else None
+            supsec = a[8] if len(a) > 8 else None
             line, offs = built[ci]
             wf = all(bool(info[(ci, ui, 'wfh')]) and bool(info[(ci, ui, 'wf')]) for ui in range(len(units)))
             exp = []
@@ -653,7 +672,7 @@ def evaluate(ctx, cases):
             def run():
                 out = []
                 if kind == 'unit':
-                    di = _dwarfinfo(le, line, line_str, strsec)
+                    di = _dwarfinfo(le, line, line_str, strsec, sup=supsec)
                     for ui in order:
                         hdr = units[ui][0]
                         ds = DWARFStructs(little_endian=le, dwarf_format=64 if hdr[0] else 32, address_size=hdr[2])
@@ -665,7 +684,7 @@ def evaluate(ctx, cases):
                     cus = [((cuvers[j] if cuvers else units[x][0][1]), units[x][0][0], units[x][0][2], offs[x]) if x >= 0
                            else ((cuvers[j] if cuvers else 4), False, 4, None) for j, x in enumerate(lookups)]
                     dinfo, dabbrev = _build_cus(le, cus)
-                    di = _dwarfinfo(le, line, line_str, strsec, dinfo, dabbrev)
+                    di = _dwarfinfo(le, line, line_str, strsec, dinfo, dabbrev, sup=supsec)
                     for cu in di.iter_CUs():
                         def one():
                             lp = di.line_program_for_CU(cu)
@@ -676,6 +695,10 @@ def evaluate(ctx, cases):
                 return out
             impl = impl_call(run)
             ctx.bump('units', len(units))
+            for u in units:
+                if u[0][1] >= 5:
+                    fs = {f for _, f in u[0][8] + u[0][10]}
+                    ctx.bump('v5_supplementary_forms', 'used' if fs & {'strp_sup', 'GNU_strp_alt'} else 'not used')
             if kind == 'cu' and cuvers:
                 shared = {}
                 for x, v in zip(lookups, cuvers):
